@@ -21,7 +21,7 @@ PROSE = ["number of {n} items to use", "name of the {n}", "whether to shuffle th
 SCALARS = ["str", "int", "float", "bool"]
 
 
-SPICY_P = float(os.environ.get("DTSIM_SPICY_P", "0"))
+SPICY_P = float(os.environ.get("DTSIM_SPICY_P", "0.1"))
 RETDOC_P = float(os.environ.get("DTSIM_RETDOC_P", "0.08"))
 
 
